@@ -9,6 +9,38 @@ use std::os::unix::net::UnixStream;
 use std::rc::Rc;
 use std::time::Duration;
 
+struct Fd(Rc<UnixStream>);
+impl std::os::unix::io::AsFd for Fd { fn as_fd(&self) -> std::os::unix::io::BorrowedFd<'_> { self.0.as_fd() } }
+
+#[test]
+fn self_remove_and_slot_reuse_leaves_no_ghost_registration() {
+    // the same fd NUMBER is inserted again afterwards, and the loop must not keep waking up for it
+    let mut el: EventLoop<u32> = EventLoop::try_new().unwrap();
+    let h = el.handle();
+    let (a, mut peer) = UnixStream::pair().unwrap();
+    let a = Rc::new(a);
+    let tokc: Rc<Cell<Option<RegistrationToken>>> = Rc::new(Cell::new(None));
+    let (h2, t2) = (h.clone(), tokc.clone());
+    let disp = Dispatcher::new(Generic::new(Fd(a.clone()), Interest::READ, Mode::Level), move |_, _, n: &mut u32| {
+        *n += 1;
+        h2.remove(t2.get().unwrap());
+        h2.insert_source(Timer::from_duration(Duration::from_secs(3600)), |_, _, _| TimeoutAction::Drop).unwrap();
+        Ok(PostAction::Continue)
+    });
+    tokc.set(Some(h.register_dispatcher(disp.clone()).unwrap()));
+    peer.write_all(b"x").unwrap(); // stays unread: the fd is readable for good
+    let mut n = 0;
+    el.dispatch(Duration::from_millis(100), &mut n).unwrap();
+    assert_eq!(n, 1);
+    let t = std::time::Instant::now();
+    el.dispatch(Duration::from_millis(150), &mut n).unwrap();
+    assert!(t.elapsed() >= Duration::from_millis(140), "the removed source's fd still wakes the loop ({:?})", t.elapsed());
+    h.insert_source(Generic::new(Fd(a.clone()), Interest::READ, Mode::Level), |_, _, _| Ok(PostAction::Continue))
+        .map_err(|e| e.error)
+        .expect("re-inserting the very same fd after the source removed itself and its slot was reused");
+    drop(disp);
+}
+
 #[test]
 fn self_remove_and_slot_reuse_unregisters_the_fd() {
     let mut el: EventLoop<u32> = EventLoop::try_new().unwrap();
